@@ -166,6 +166,72 @@ def run(ctx, env):
             ctx.ob("R15.2", b.path, "clone:%s:%s" % (c.nsyn.rsplit("::", 1)[1], short_ty(ty)), not inv,
                    ("deep copy of loop-invariant %s per iteration: %s" % (short_ty(ty), why)) if inv else ("copies a per-iteration value: %s" % why), site=b.line(blk))
     ctx.floor("R15.2", "crate", "heap-owning clone sites inside repetitions", nclone, 2)
+    # R15.6 accumulators grow in place
+    ctx.rule("R15.6", "an owned accumulator (String / Vec / map) threaded through fold / try_fold / reduce, or carried round a loop, is extended in place and never rebuilt from itself (format!, clone, to_vec, to_owned, concat, join, collect of the accumulator): rebuilding copies everything accumulated so far at every step, quadratic in the number of steps")
+    REBUILD = re.compile(r"(^|::)(fmt::format|string::ToString::to_string|clone::Clone::clone|borrow::ToOwned::to_owned|slice::<impl \[T\]>::(to_vec|concat|join|repeat)|str::<impl str>::(to_owned|to_string|repeat|replace|to_uppercase|to_lowercase)|iter::Iterator::collect|iter::Iterator::cloned|convert::From::from|convert::Into::into)$")
+    FOLDS = ("std::iter::Iterator::fold", "std::iter::Iterator::try_fold", "std::iter::Iterator::reduce", "std::iter::Iterator::scan", "std::iter::Iterator::try_reduce",
+             "nom::multi::fold_many0", "nom::multi::fold_many1", "nom::multi::fold_many_m_n")
+    nacc = 0
+    fold_closures = {}
+    for b in bodies.values():
+        for blk, t, c in b.calls():
+            if c is None or not (c.nsyn in FOLDS or c.npath in FOLDS):
+                continue
+            for a in t["args"]:
+                for n in find(an.op(b, a), lambda n: n[0] == "closure"):
+                    fold_closures[n[1]] = (b.path, c.nsyn.rsplit("::", 1)[1])
+
+    def rebuilds(e, is_acc):
+        out = []
+        for n in find(e, lambda n: n[0] == "call" and n[2] is not None and (REBUILD.search(n[2].npath) or REBUILD.search(n[2].nsyn))):
+            if any(find(a, is_acc) for a in n[3]):
+                out.append(n[2].nsyn.rsplit("::", 1)[1])
+        return out
+
+    for cp, (owner, how) in sorted(fold_closures.items()):
+        cb = prog.bodies.get(cp)
+        if cb is None or cb.arg_count < 2 or not owns_heap(prog, cb.local_ty(2)):
+            continue
+        nacc += 1
+        hits = rebuilds(an.slicer(cb).local(0), lambda n: n == ("arg", 2))
+        ctx.ob("R15.6", re.sub(r"(::\{closure#\d+\})+$", "", cp), "accumulator:%s" % how, not hits,
+               ("the %s step rebuilds its %s accumulator from itself through %s: every step copies everything accumulated so far" % (how, short_ty(cb.local_ty(2)), sorted(set(hits))))
+               if hits else "the %s step returns its %s accumulator extended in place" % (how, short_ty(cb.local_ty(2))), site=site(cb.span))
+    for b in sorted(bodies.values(), key=lambda x: x.path):
+        if b.derived:
+            continue
+        loops = b.sccs()
+        if not loops:
+            continue
+        sl = an.slicer(b)
+        seen_l = set()
+        for comp in loops:
+            comp = set(comp)
+            for blk in sorted(comp):
+                dests = [(s["place"]["l"], s["span"]) for s in b.blocks[blk]["stmts"] if s["k"] == "assign" and not s["place"].get("p")]
+                t = b.term(blk)
+                if t["k"] == "call" and t.get("dest") and not t["dest"].get("p"):
+                    dests.append((t["dest"]["l"], b.blocks[blk]["tspan"]))
+                for l, sp in dests:
+                    if l in seen_l or l <= b.arg_count or not b.locals[l].get("user") and False:
+                        continue
+                    ty = b.local_ty(l)
+                    if ty.startswith("&") or not owns_heap(prog, ty):
+                        continue
+                    # carried round the loop: also defined before the loop (initial value) and read in the loop
+                    defs = sl.defs.get(l, [])
+                    if not any(d[1] not in comp for d in defs):
+                        continue
+                    seen_l.add(l)
+                    e = sl.local(l)
+                    hits = rebuilds(e, lambda n, l=l: n in (("cycle", l), ("local", l)))
+                    if not find(e, lambda n, l=l: n == ("cycle", l)):
+                        continue
+                    nacc += 1
+                    ctx.ob("R15.6", b.path, "loop-accumulator:%s" % short_ty(ty), not hits,
+                           ("the loop rebuilds its %s accumulator from itself through %s at every iteration" % (short_ty(ty), sorted(set(hits)))) if hits
+                           else "loop-carried %s is extended in place" % short_ty(ty), site=site(sp))
+    ctx.count("accumulators_inspected", nacc)
     # R15.5
     from .cache import GET as _GET, PARSER_ADTS as _PADTS
     ncl = 0
